@@ -35,6 +35,7 @@ type Schema struct {
 	Auto     bool     // first key column is AUTO_INCREMENT
 	Nullable bool     // w2 is NULL for w = 0
 	NullOnly bool     // the written part lives in the nullable column alone: w1 stays 10 whatever w is
+	W2Vals   []interface{} // with NullOnly: the value of w2 for w = 0, 1, 2 (default: NULL, "v1", "v2")
 	Zoo      bool     // extra columns of many types with fixed per-key values
 	Harsh    bool     // zoo with the value classes that have known defects (C08)
 	KeyKind  string   // int | comp | str
@@ -68,6 +69,10 @@ func Family() []*Schema {
 		// nullable column, and changes it to NULL
 		{Name: "t_nullw", KeyKind: "int", KeyCols: []string{"id"}, Nullable: true, NullOnly: true,
 			DDL: "CREATE TABLE t_nullw (id INT NOT NULL, w1 INT NOT NULL, w2 VARCHAR(64) NULL, u1 INT NOT NULL, PRIMARY KEY (id))"},
+		// t_numw (SCHEMA=t_numw only): the written part is a VARCHAR whose three values are different texts of the
+		// same number (none of them is valid base64, which is C08's open finding F-C08-4)
+		{Name: "t_numw", KeyKind: "int", KeyCols: []string{"id"}, NullOnly: true, W2Vals: []interface{}{"042", "42", "42.0"},
+			DDL: "CREATE TABLE t_numw (id INT NOT NULL, w1 INT NOT NULL, w2 VARCHAR(64) NOT NULL, u1 INT NOT NULL, PRIMARY KEY (id))"},
 	}
 }
 
@@ -84,7 +89,8 @@ func ByName(name string) *Schema {
 func (s *Schema) KeyVals(k int) []interface{} {
 	switch s.KeyKind {
 	case "comp":
-		return []interface{}{int64(k), fmt.Sprintf("s%d", k)}
+		// all rows share the leading key column: a client that identifies rows by it alone confuses them
+		return []interface{}{int64(5), fmt.Sprintf("s%d", k)}
 	case "str":
 		// key texts that contain the separators of the lock-key grammar
 		return []interface{}{[]string{"", "k_1", "k,2", "k:3", "k;4"}[k]}
@@ -115,11 +121,8 @@ func (s *Schema) WOf(w1 int64, w2 interface{}, hasW2 bool) int {
 		if w1 != 10 || !hasW2 {
 			return -2
 		}
-		if w2 == nil {
-			return 0
-		}
-		for w := 1; w <= 9; w++ {
-			if w2 == fmt.Sprintf("v%d", w) {
+		for w := 0; w <= 9; w++ {
+			if w2 == s.W2(w) {
 				return w
 			}
 		}
@@ -136,6 +139,9 @@ func (s *Schema) WOf(w1 int64, w2 interface{}, hasW2 bool) int {
 	return w
 }
 func (s *Schema) W2(w int) interface{} {
+	if s.W2Vals != nil && w >= 0 && w < len(s.W2Vals) {
+		return s.W2Vals[w]
+	}
 	if s.Nullable && w == 0 {
 		return nil
 	}
@@ -208,6 +214,14 @@ type Style struct {
 	Explicit bool // run the branch in an explicit transaction (BeginTx/Commit) even for one statement
 	Upper    bool // upper-case table name
 	Multi    bool // UPDATE / DELETE of several rows as one multi-statement string ("UPDATE ..; UPDATE ..")
+	// NoWhereFirst (with Multi): a DELETE of all rows (2 keys = the whole table in the labs) is spelt
+	// "DELETE FROM t; DELETE FROM t WHERE <last key>" - the first statement has no WHERE clause
+	NoWhereFirst bool
+	// RefuseReports: the coordinator does not take the status report of a late phase one (every attempt fails)
+	RefuseReports bool
+	// PkLate: INSERT lists a numeric column, written as a literal, before the primary key column
+	// ("INSERT INTO t (w1, id, w2, u1) VALUES (11, ?, ?, ?)")
+	PkLate bool
 	// FailFirst: in an explicit local transaction the application first runs an UPDATE of an existing row that
 	// the database fails, handles the error and carries on (MySQL rolls back the statement, not the transaction)
 	FailFirst bool
@@ -223,7 +237,7 @@ func (st Style) IsMulti(s Stmt) bool {
 }
 
 func RandStyle(r *rand.Rand) Style {
-	return Style{Literal: r.Intn(3) == 0, InList: r.Intn(2) == 0, Explicit: r.Intn(3) == 0, Upper: false, Multi: r.Intn(4) == 0, FailFirst: r.Intn(4) == 0}
+	return Style{Literal: r.Intn(3) == 0, InList: r.Intn(2) == 0, Explicit: r.Intn(3) == 0, Upper: false, Multi: r.Intn(4) == 0, FailFirst: r.Intn(4) == 0, NoWhereFirst: r.Intn(2) == 0, RefuseReports: r.Intn(2) == 0, PkLate: r.Intn(3) == 0}
 }
 
 func lit(v interface{}) string {
@@ -313,6 +327,14 @@ func (s *Schema) SQL(st Stmt, style Style) (string, []interface{}) {
 		one.Multi = false
 		var qs []string
 		var args []interface{}
+		if style.NoWhereFirst && st.Kind == "del" && len(st.Keys) == 2 {
+			tbl := s.Name
+			if style.Upper {
+				tbl = strings.ToUpper(tbl)
+			}
+			q, a := s.SQL(Stmt{Kind: "del", Keys: st.Keys[1:], W: st.W, U: st.U}, one)
+			return "DELETE FROM " + tbl + "; " + q, a
+		}
 		for _, k := range st.Keys {
 			q, a := s.SQL(Stmt{Kind: st.Kind, Keys: []int{k}, W: st.W, U: st.U}, one)
 			qs = append(qs, q)
@@ -337,6 +359,33 @@ func (s *Schema) SQL(st Stmt, style Style) (string, []interface{}) {
 		b.sb.WriteString("DELETE FROM " + tbl + " WHERE ")
 		s.keyCond(b, st.Keys, style)
 	case "ins", "ups":
+		if style.PkLate && s.KeyKind == "int" && len(s.KeyCols) == 1 && !s.Auto {
+			cols := []string{"w1", s.KeyCols[0], "w2", "u1"}
+			if s.Zoo {
+				cols = append(cols, "z_txt")
+			}
+			b.sb.WriteString("INSERT INTO " + tbl + " (" + strings.Join(cols, ", ") + ") VALUES ")
+			for i, k := range st.Keys {
+				if i > 0 {
+					b.sb.WriteString(", ")
+				}
+				b.sb.WriteString("(" + fmt.Sprint(s.W1(st.W)) + ", ")
+				b.val(s.KeyVals(k)[0])
+				b.sb.WriteString(", ")
+				b.val(s.W2(st.W))
+				b.sb.WriteString(", ")
+				b.val(s.U1(st.U))
+				if s.Zoo {
+					b.sb.WriteString(", ")
+					b.val(s.ZTxt(k))
+				}
+				b.sb.WriteString(")")
+			}
+			if st.Kind == "ups" {
+				b.sb.WriteString(" ON DUPLICATE KEY UPDATE w1 = VALUES(w1), w2 = VALUES(w2)")
+			}
+			break
+		}
 		cols := append([]string{}, s.KeyCols...)
 		auto := s.Auto && st.Kind == "ins"
 		if auto {
